@@ -133,12 +133,14 @@ def gen_program(rng, sid, hdr, maxlen=6):
             elif layout[0] == "innerTable" and k in vis:
                 layout = ("innerColumn", layout[1], k)
         elif r < 0.83:
-            ops.append(("int", rng.choice([0, 0, 1, 2, 3, -1] if wild else [0, 0, 1, 2, 3])))
+            # (negative bounds are left to the flat programs: itertools.islice validates its arguments before any
+            # row is read, so with a failing filter/map in the same stream the error class depends on that order)
+            ops.append(("int", rng.choice([0, 0, 1, 2, 3])))
         else:
             a = rng.choice([None, None, 0, 1, 2])
             b = rng.choice([None, None, 0, 1, 2, 4, 6])
             k = rng.choice([None, None, 1, 2, 3])
-            ops.append(("sl", -1 if wild and rng.random() < 0.3 else a, b, k))
+            ops.append(("sl", a, b, k))
     return ops, resolved
 
 
